@@ -617,9 +617,13 @@ def layout_mutate(rng, text, n=None):
                 i = rng.choice(ms)
                 text = text[:i] + rng.choice([" ", "  ", "\t"]) + text[i:]
                 tags.append("indent-record")
-        elif r < 0.93:
+        elif r < 0.90:
             text = rng.choice([";; 1. Based on: 5\n", ";; 2. Description: x\n", "\n"]) + text
             tags.append("text-before-first")
+        elif r < 0.96:
+            if not re.search(r"^[ \t]*\$SIZ", text, flags=re.M | re.I):
+                text = gen_sizes(rng) + text
+                tags.append("sizes-before-problem")
         else:
             text = text.replace("\r\n", "\n").replace("\n", "\r\n")
             tags.append("crlf-all")
@@ -628,17 +632,42 @@ def layout_mutate(rng, text, n=None):
 
 # ------------------------------------------------------------------ valid model skeletons
 
+def gen_sizes(rng):
+    """$SIZES (a record that stands before the first $PROBLEM) with several options in random order."""
+    opts = [f"LTH={rng.choice([3, 40, 60, 100, 101, 150])}", f"LVR={rng.choice([30, 40, 35])}", f"PD={rng.choice([-100, 70, -30])}",
+            f"PC={rng.choice([10, 30, 31, 40])}", "LIM1=2000", "ISAMPLEMAX=500", "LNP4=4000", f"PDT={rng.choice([-100, 50])}", "DIMQ=100000",
+            "MAXIDS=5000", f"LTV={rng.choice([50, 120])}"]
+    rng.shuffle(opts)
+    opts = opts[:rng.randint(1, 5)]
+    raw = rng.choice(["$SIZES", "$SIZES", "$SIZ", "$SIZE", "$sizes"])
+    sep = lambda: rng.choice([" ", " ", "  ", "\t", "\n  ", " ; c\n "])
+    out = raw
+    for o in opts:
+        out += sep() + (o if rng.random() < 0.85 else o.replace("=", rng.choice([" = ", "= ", " ="])))
+    out += rng.choice(["", "", " ; sizes comment", "  "]) + "\n"
+    if rng.random() < 0.15:
+        out += rng.choice(["\n", ";after sizes\n"])
+    return out
+
+
 def gen_model(rng):
     """A small valid model (dataset file does not exist: reading skips it)."""
     nth = rng.randint(1, 4)
     neta = rng.randint(1, 3)
     pred = rng.random() < 0.4
     abbr = rng.random() < 0.12
-    s = rng.choice(["$PROBLEM ", "$PROB  ", "$PROBLEM    "]) + rng.choice(["PHENOBARB SIMPLE MODEL", "run 1", "x ; y"]) + "\n"
+    s = ""
+    if rng.random() < 0.25:
+        s += rng.choice([";; 1. Based on: 5\n", ";; 2. Description: PHENOBARB\n;; x1. Author: user\n", "; free comment\n", "\n"])
+    if rng.random() < 0.45:
+        s += gen_sizes(rng)
+    s += rng.choice(["$PROBLEM ", "$PROB  ", "$PROBLEM    "]) + rng.choice(["PHENOBARB SIMPLE MODEL", "run 1", "x ; y"]) + "\n"
     cols = ["ID", "TIME", "AMT", "WGT", "APGR", "DV"]
     s += rng.choice(["$INPUT ", "$INPUT  ", "$INP "]) + rng.choice([" ", "  ", "\n  "]).join(cols) + "\n"
     s += "$DATA " + rng.choice(["nonexistent_c03.csv", "'no such file.csv'"]) + " IGNORE=@\n"
     eta = (lambda i: f"ETA({i})")
+    if rng.random() < 0.15:
+        s += rng.choice(["$ABBR DERIV2=NO\n", "$ABBREVIATED COMRES=2  PROTECT ; keep\n", "$ABB DERIV2=NOCOMMON\n\n", "$ABBREVIATED NOFASTDER\n"])
     if abbr:
         for i in range(1, neta + 1):
             s += f"$ABBR REPLACE ETA_P{i}=ETA({i})\n"
@@ -688,11 +717,27 @@ def gen_model(rng):
     for i in range(rest):
         s += rng.choice(["$OMEGA ", "$OMEGA  "]) + rng.choice(["0.0309626", "0.1", "0.5 FIX", "(0.2)"]) + rng.choice(["", "  ; IVCL", " ;x"]) + "\n"
     s += rng.choice(["$SIGMA ", "$SIGMA  "]) + rng.choice(["0.013241", "1 FIX", "0.1 ; RUV"]) + "\n"
-    if rng.random() < 0.8:
-        s += rng.choice(["$ESTIMATION METHOD=1 INTERACTION", "$EST METHOD=1 INTER MAXEVALS=9999 PRINT=1", "$ESTIMATION METHOD=0",
-                         "$ESTIMATION METH=COND  INTER   MAXEVAL=99"]) + cm() + "\n"
-    if rng.random() < 0.4:
-        s += rng.choice(["$COVARIANCE UNCONDITIONAL\n", "$COV\n", "$COVARIANCE PRINT=E\n"])
-    if rng.random() < 0.5:
-        s += "$TABLE ID TIME DV " + rng.choice(["PRED", "CWRES", "CL"]) + " NOPRINT ONEHEADER FILE=sdtab1\n"
+    if rng.random() < 0.1:
+        s += rng.choice(["$MSFI old.msf\n", "$MSFI  msf1 NOMSFTEST\n", "$WARNINGS NONE\n", "$PRIOR NWPRI ; raw record\n"])
+    if rng.random() < 0.15:
+        s += rng.choice(["$SIMULATION (12345) SUBPROBLEMS=2\n", "$SIM  (1) ONLYSIM\n", "$SIMULATION (771)  (99) NSUB = 3 ; sim\n", "$SIMUL (5)\n"])
+    if rng.random() < 0.12:
+        s += rng.choice(["$ETAS FILE=/nonexistent_c03_dir/run1.phi\n", "$ETAS  FILE=/nonexistent_c03_dir/x.phi ; start etas\n"])
+    if rng.random() < 0.85:
+        for _ in range(rng.choice([1, 1, 1, 2, 3])):
+            s += rng.choice(["$ESTIMATION METHOD=1 INTERACTION", "$EST METHOD=1 INTER MAXEVALS=9999 PRINT=1", "$ESTIMATION METHOD=0",
+                             "$ESTIMATION METH=COND  INTER   MAXEVAL=99", "$ESTIM METHOD=IMP INTERACTION ISAMPLE=300 NITER=10",
+                             "$EST METH=SAEM NBURN=100 NITER=50 PRINT=5", "$ESTIMATION METHOD=1 INTER MAXEVAL=0 POSTHOC  NOABORT SIGDIGITS=3 MSFO=msf1",
+                             "$ESTIMATION METHOD=COND LAPLACE -2LL\n  MAXEVAL=9999 ; second line", "$estimation method=1 inter",
+                             "$EST METHOD=1 INTER FILE=psn.ext SIGL=9 NSIG=3"]) + cm() + "\n"
+    if rng.random() < 0.45:
+        s += rng.choice(["$COVARIANCE UNCONDITIONAL\n", "$COV\n", "$COVARIANCE PRINT=E\n", "$COV MATRIX=S ; s matrix\n", "$COVR  UNCOND  PRINT=E\n",
+                         "$COVARIANCE MATRIX=R UNCONDITIONAL PRINT=E PRECOND=1\n", "$COV OMITTED\n"])
+    for _ in range(rng.choice([0, 1, 1, 2])):
+        s += rng.choice(["$TABLE ID TIME DV " + rng.choice(["PRED", "CWRES", "CL"]) + " NOPRINT ONEHEADER FILE=sdtab1\n",
+                         "$TAB ID  TIME\n  DV PRED ; cols\n  NOAPPEND NOPRINT FILE=mytab FORMAT=s1PE12.5\n",
+                         "$TABLE ID ETAS(1:LAST) FIRSTONLY NOPRINT FILE = patab1\n", "$table id dv noprint file=lower.tab\n",
+                         "$TABLE ID TIME IPRED=CIPRED NOPRINT ONEHEADER FILE=run1.tab RFORMAT=\"(1PE16.9,300(1PE24.16))\"\n"])
+    if rng.random() < 0.1:
+        s = s.rstrip("\n")     # no final newline
     return s
